@@ -38,7 +38,9 @@ explicitly listed as unproved: a new, renamed or re-exported rule breaks this ob
 theorem default_rules_covered :
     ∀ r ∈ OV.Gen.C05.defaultRules, r ∈ Table.provedRules ∨ r ∈ Table.listedUnproved := by decide +kernel
 
-/-- The same for everything exported by `rules.common` / found in `rules.fusion`. -/
+/-- The same for everything exported by `rules.common` / found in `rules.fusion`.  Both coverage obligations are *bookkeeping*:
+they check membership of each regenerated key in the hand-written lists `Table.provedRules` / `Table.listedUnproved`; that a
+listed rule really has a theorem below is by inspection (the list is not derived from the theorems). -/
 theorem exported_rules_covered :
     ∀ r ∈ OV.Gen.C05.exportedRules, r ∈ Table.provedRules ∨ r ∈ Table.listedUnproved := by decide +kernel
 
@@ -460,8 +462,11 @@ theorem unit_laws_fire_exact (p : Params) (h : p.check = true) : p.value = p.op.
   exact hv (by linarith)
 
 /-- **`add_0` / `sub_0` / `mul_by_1` / `div_by_1`** (+ commuted forms; after commit 6800bd1): whenever the rule set fires and the
-constant is a true constant, the matched node is the identity on every `x`.  `_partial`: the matcher still accepts an initializer
-that is also a graph input (finding C05-N1, kept by the maintainers' own tests). -/
+constant is a true constant, the matched node is the identity on every `x`.  **What this proves:** `p.value` is the compile-time
+value the matcher read; the statement is `x op p.value = x`.  The model has no separate run-time value for the operand, so the
+hypothesis `_hN1` is **not used by the proof** — it only records where "run-time operand = `p.value`" is true of the real code.  For an
+initializer that is also a graph input (finding C05-N1, kept by the maintainers' own tests) the run-time operand may differ from
+`p.value`; that is shown by the concrete witness `unit_default_input_refuted` and by the harness, not excluded by this theorem. -/
 theorem unit_laws_sound_partial (p : Params) (hfire : p.check = true) (_hN1 : p.origin ≠ .inputWithDefault) (x : Rat) :
     p.op.apply x p.value = x := by
   rw [unit_laws_fire_exact p hfire]
@@ -491,8 +496,9 @@ theorem unit_laws_prefix_refuted :
   · norm_num [Op.apply]
   · norm_num [Op.apply]
 
-/-- Finding C05-N1: the rule fires on `Add(x, z)` where `z` is an initializer *and* a graph input with default 0;
-at run time `z` may be any `w` and `x + w ≠ x` for `w = 3`. -/
+/-- Finding C05-N1: the rule fires on `Add(x, z)` where `z` is an initializer *and* a graph input with default 0 (first conjunct:
+the model's `check` accepts that origin — this is the content); the second conjunct (`x + w = x` fails for some `w`) is the
+trivial arithmetic half of the witness. -/
 theorem unit_default_input_refuted :
     (Params.check { op := .add, constOnLeft := false, origin := .inputWithDefault, rank := 0, value := 0 }) = true ∧
     ¬ (∀ w x : Rat, Op.apply .add x w = x) := by
@@ -1053,7 +1059,10 @@ run-time targets, symbolic dims) against the real rules.  Whenever a rule of the
 removable and the rule object exists — no ExpandFirst for PRelu), then for **every** valuation `σ` of the symbolic dims under
 which the annotations are truthful, and every run-time target `le` (equal to the constant when there is one): if the original
 `Op(Expand(x, le), y)` is valid with result shape `lout`, so is `Op(x, y)`, with the same result shape.  Proved by C09
-(`OV.Props.C09.expand_removable_sound`), imported, not restated. -/
+(`OV.Props.C09.expand_removable_sound`), imported, not restated.  **Scope: shapes only** (validity and result shape).  The element
+values are covered by `expand_before_binary_value_sound` below, which is stated on C05's own strategy-1 model (constant target,
+static annotations) only; for strategies 2/3 and symbolic dims equality of values rests on the numeric oracle.  One theorem serves
+all 37 `expand_before_binary_op_rules[i]` rule objects. -/
 theorem expand_before_binary_sound (op : String) (side : Nat) (x y : OV.C09.Shape) (const : Option (List Int))
     (eOut bOut : Option OV.C09.Shape)
     (hfire : OV.C09.expandRuleFires op side true (OV.C09.expandRemovable (some x) (some y) const eOut bOut) = true)
@@ -1091,7 +1100,8 @@ theorem expand_before_binary_shape_iff (x y : List Nat) (e : List Int) (en : Lis
   expand_removal_shape_iff x y e en r hguard he
 
 /-- **values**: at every output coordinate, `Op(Expand(X, e), Y)` and `Op(X, Y)` read the same elements of `X` and `Y`
-(tensors as functions of right-aligned coordinates, broadcasting = "coordinate 0 on a size-1 axis"), for every elementwise `f`. -/
+(tensors as functions of right-aligned coordinates, broadcasting = "coordinate 0 on a size-1 axis"), for every elementwise `f`.
+Strategy 1 with static annotations only (C05's own model `expandRemovableConst`), pointwise per output coordinate. -/
 theorem expand_before_binary_value_sound {α : Type} (f : α → α → α) (x y en t : List Nat)
     (ht : specBroadcast x en = some t) (X Y : (Nat → Nat) → α) :
     binopT f t y (expandT x X) Y = binopT f x y X Y :=
@@ -1145,7 +1155,9 @@ open OV.C05.More OV.C05.Shape OV.Lemmas.C05Algebra
 
 /-- **`LayerNormFusion`**, values: for every row length, every epsilon and scale, over any field with any square-root function,
 all four shapes of the matched sub-graph (`Mul(d,d)` / `Pow(d,2)`, `Mul(d, Reciprocal(std))` / `Div(d, std)`) compute exactly
-`LayerNormalization(x, scale, axis=-1, epsilon)`. -/
+`LayerNormalization(x, scale, axis=-1, epsilon)`.  *Near-definitional*: both sides are the model's own transcriptions
+(`layerNormPattern` vs `layerNormSpec`) and the proof is `simp [pow_two, div_eq_mul_inv]` — it shows the four syntactic variants agree
+per row element; that the transcriptions are the ONNX operators is the model/implementation tie + numeric oracle, not this theorem. -/
 theorem layer_norm_fusion_sound {α : Type} [Field α] (sqrtf : α → α) (usePow useDiv : Bool) (n : Nat) (eps : α)
     (scale x : Nat → α) (i : Nat) :
     layerNormPattern sqrtf usePow useDiv n eps scale x i = layerNormSpec sqrtf n eps scale x i := by
@@ -1153,12 +1165,14 @@ theorem layer_norm_fusion_sound {α : Type} [Field α] (sqrtf : α → α) (useP
   cases usePow <;> cases useDiv <;> simp [pow_two, div_eq_mul_inv]
 
 /-- **`LayerNormBiasFusion`**: `LayerNormalization(x, scale) + bias` is `LayerNormalization(x, scale, bias)` by the operator's
-definition (`Y = normalized * scale + B`); the rule copies the node's attributes and output count. -/
+definition (`Y = normalized * scale + B`); the rule copies the node's attributes and output count.  *Definitional* (`rfl`): it
+records the operator definition used, it is not evidence about the code. -/
 theorem layer_norm_bias_fusion_sound {α : Type} [Field α] (sqrtf : α → α) (n : Nat) (eps : α) (scale bias x : Nat → α) (i : Nat) :
     layerNormSpec sqrtf n eps scale x i + bias i =
       (x i - meanF n x) / sqrtf (meanF n (fun k => (x k - meanF n x) ^ 2) + eps) * scale i + bias i := rfl
 
-/-- **`RmsNormFusion`** (both operand orders of the final `Mul`): the matched sub-graph computes `RMSNormalization(x, scale, axis=-1, epsilon)`. -/
+/-- **`RmsNormFusion`** (both operand orders of the final `Mul`): the matched sub-graph computes `RMSNormalization(x, scale, axis=-1, epsilon)`.
+*Near-definitional* like `layer_norm_fusion_sound` (per row element, over the model's transcriptions). -/
 theorem rms_norm_fusion_sound {α : Type} [Field α] (sqrtf : α → α) (scaleFirst : Bool) (n : Nat) (eps : α)
     (scale x : Nat → α) (i : Nat) :
     rmsNormPattern sqrtf scaleFirst n eps scale x i = rmsNormSpec sqrtf n eps scale x i := by
